@@ -197,6 +197,7 @@ class Module(object):
         # behaviour-preserving normalisation (helpers that are not part of the reference tree are inlined)
         from . import normalize
         self.normalize_log = normalize.inline_new_helpers(self.tree, name)
+        self.normalize_log += normalize.unroll_reflective_loops(self.tree)
         self.funcs = {}
         self.classes = {}
         self.imports = {}  # local name -> (module short name or None, original name)
